@@ -233,7 +233,15 @@ def rule_exclusive_bound(rep, fx, rid):
             if x[0] == 'field':
                 names.add(x[1])
         excl = [nm for nm in names if nm.endswith('_before') or nm in ('ack_base', 'all_acked_before')]
-        dec = term_has(hi, lambda x: (x[0] == 'call' and x[1].rsplit('::', 1)[-1] in ('sub', 'minus_1')) or (x[0] == 'bin' and x[1].startswith('Sub')))
+        def by_one(x):
+            if x[0] == 'call' and x[1].rsplit('::', 1)[-1] == 'minus_1':
+                return True
+            if (x[0] == 'call' and x[1].rsplit('::', 1)[-1] == 'sub' and len(x[2]) == 2) or (x[0] == 'bin' and x[1].startswith('Sub')):
+                r_ = x[2][1] if x[0] == 'call' else x[3]
+                return r_ == ('const', 'int', 1) or (r_[0] == 'call' and r_[1].endswith('::new') and r_[2] == (('const', 'int', 1),)) or \
+                    (r_[0] == 'call' and r_[1].endswith('::from') and r_[2] == (('const', 'int', 1),))
+            return False
+        dec = term_has(hi, by_one)
         ok = not excl or dec
         ctor = strip_generics(callee_res(t)).rsplit('::', 2)
         ctor = ctor[-1] if ctor[-1] != 'new' else '::'.join(ctor[-2:])
